@@ -210,8 +210,40 @@ def c09(tier, seed):
     return finish(agg, "exploration", cov, PDE_ASSUME + ["C08 solutions (sod_1d, cp_normal) are covered for precision by the C08 monitor's own quad references"], floors)
 
 
+# --------------------------------------------------------------------------------------------- C20
+RED_SRCS = [x for x in PDE_SRCS if x != "mon_pde.cpp"] + ["mon_reduce.cpp"]
+
+
+@prop("C20")
+def c20(tier, seed):
+    agg = Agg("C20", tier, seed)
+    exe = build.build_bin("plain", "mon_reduce", RED_SRCS, opt="-O2")
+    cases, points, chunks = (150, 8, 2) if tier == "quick" else (6000, 16, 16)
+    shards = []
+    for p in ("d", "l"):
+        for i in range(chunks):
+            n = cases // chunks
+            shards.append(Shard(exe, [str(a) for a in ["--seed", seed, "--prec", p, "--case0", i * n, "--cases", n, "--points", points]], "reduce/%s/%d" % (p, i), timeout=3600))
+    agg.add_shards(run_shards(shards))
+    worst = {}
+    for st in agg.stats.get("ratio", []):
+        worst[st["k"]] = max(worst.get(st["k"], 0), round(st["max"], 4))
+    nred = 19
+    cov = {"evaluations": agg.count("comparisons"), "distinct_nontrivial": agg.count("parameter_vectors"),
+           "rule": "19 reductions (3D->2D Euler and NS; NS->Euler 2D/3D with mu=k=0; transient->steady Euler 1D/2D/3D; heat unsteady->steady x6; heat var->const x6); "
+                   "for each, the simpler solution's parameters drawn independently (admissible set of its generator), copied onto the richer handle, the "
+                   "specialising parameters zeroed afterwards and verified through masa_get_param, remaining rich-only parameters (R, a_*t, cp, rho, z, t) "
+                   "random; each (reduction, parameter vector) is a distinct non-trivial case",
+           "reductions_exercised": sorted(agg.distinct.get("reductions", [])),
+           "max_ratio_in_units_of_u_e": dict(sorted(worst.items(), key=lambda kv: -kv[1])[:20]),
+           "tolerance": "2^20 u e, e = running error magnitude of the simpler solution's operator (from the oracle; used as scale only)"}
+    floors = [("all %d reductions exercised" % nred, agg.ndistinct("reductions") == nred), ("at least 5000 comparisons", agg.count("comparisons") >= 5000)]
+    return finish(agg, "exploration", cov, ["two handles of one process; evaluation through masa_select_mms switching", "the scale e comes from the jet oracle; the verdict compares library with library"], floors)
+
+
 def prebuild():
     """build every harness binary the quick checks use (called by setup)"""
     build.build_bin("exc", "mon_names", COMMON + ["mon_names.cpp"])
     build.build_bin("plain", "mon_names", COMMON + ["mon_names.cpp"])
     pde_exe("plain")
+    build.build_bin("plain", "mon_reduce", RED_SRCS, opt="-O2")
